@@ -57,9 +57,9 @@ CHECKS = {
     note="Trusted: TLC; the deterministic scheduler's model of lock/cv/thread primitives; sequentially consistent unlocked flag accesses; client contract: start is not issued while a frame call of the previous run is in flight; trigger gating is judged only for runs during which the trigger setting stayed enabled (a disabling set fires the trigger by design)."),
  "C08": dict(
     category="model_checking", design_ref="DESIGN.md section 6 (C08), section 15",
-    technique="TLA+ observation specification (LifecycleObs) evaluated by TLC over recorded device-call traces of the real runtime driven by grammar-generated client programs under a deterministic scheduler",
-    text="Client programs generated from the usage grammar (configure with any of 7 device assignments over 2 cameras x 2 storages incl. none / swapped / re-configure while running, start, start while running, zero-configuration start, trigger, map/unmap, stop, abort, get_state, shutdown; 4-14 calls) drive the real runtime under seeded random/PCT/starvation schedules; the mock driver numbers every opened handle and LifecycleObs (TLC) requires per handle: start only when not running, exactly one stop per start, append/frame only between start and stop, exactly one close (by shutdown at the latest), nothing after close or after shutdown; Running only while a worker is alive, Armed after stop/abort.",
-    note="Trusted: as the pipeline checks. Well-formedness assumptions stated in DESIGN.md: a stream is not switched to a DIFFERENT device while its acquisition runs; a client that has mapped a stream keeps polling until the acquisition is over before calling stop."),
+    technique="TLA+ model checking (TLC on Lifecycle.tla: API-level life cycle over 2 streams x 2 cameras x 2 storages, safety + liveness) bound to the code by checking that recorded executions are behaviours of the model (LifecycleTrace), plus the TLA+ observation spec LifecycleObs evaluated by TLC over device-call traces of grammar-generated client programs run under a deterministic scheduler",
+    text="Lifecycle.tla models acquire_configure/start/stop/abort/get_state/shutdown, the per-stream open/close/set logic and the HAL state guards as micro-steps that each emit at most one observable event, with worker threads abstracted to 'alive' plus the device stops they issue; TLC explores all client programs up to 6 (9 thorough) calls for every finite/infinite stream combination and checks the device protocol per handle, 'Running only while workers are alive', 'Armed after stop/abort', and that stop/abort/shutdown return. Recorded executions of the real runtime are projected to the model's events and must be behaviours of the model (64/64 accepted per run; a corrupted return state is rejected). Independently, programs from the full usage grammar (incl. monitoring, triggers, restart-on-Armed without stop, slow camera stop) are judged per device handle by LifecycleObs.",
+    note="Trusted: as the pipeline checks. Well-formedness assumptions stated in DESIGN.md: a stream's device assignment is not changed while its workers are alive; stop is only called when every running stream is finite; a client that has mapped a stream keeps polling until the acquisition is over before calling stop."),
  "C11": dict(
     category="model_checking", design_ref="DESIGN.md section 6 (C11), section 15",
     technique="TLA+ model checking (TLC, complete graph of Hal.tla for camera and storage x every driver answer) bound to camera.c/storage.c/driver.c by per-transition replay, exhaustive bounded-history walks and implementation-driven exploration whose call logs are judged by the TLA+ observation spec DeviceProtocolObs in TLC",
